@@ -85,10 +85,11 @@ class C13(Check):
         if pool:
             spec['build'] = 'python'
         net = models.RefNet(spec)
-        if rng.random() < 0.3 and net.inst:
+        if rng.random() < 0.4 and net.inst:
             (node, opn), inst = rng.choice(list(net.inst.items()))
             var = rng.choice(models.LIB[inst['lib']]['const'] + models.LIB[inst['lib']]['state'])
-            ops.append({'wf': wid, 'op': 'update_var', 'obj': M, 'node_vars': {f'{node}/{opn}/{var}': rng.randint(1, 40) / 16}})
+            val = 0.0 if (var != 'tau' and rng.random() < 0.3) else rng.randint(1, 40) / 16    # exactly 0 is a legal override
+            ops.append({'wf': wid, 'op': 'update_var', 'obj': M, 'node_vars': {f'{node}/{opn}/{var}': val}})
         n_obs = rng.randint(1, 3)
         consumed = False
         clear_pref = {'S-clean': 1.0, 'S-fault': 1.0, 'S-noclear': 0.0}.get(stratum, 0.5)
@@ -176,8 +177,13 @@ class C13(Check):
         flows = []
         shared = None
         if stratum in ('S-shared',) or (stratum == 'S-all' and rng.random() < 0.4):
-            shared = models.gen_net(rng, n_nodes=rng.randint(2, 4), uniq='', max_edges=4, build='python',
-                                    libs=('lin', 'sat', 'leak'))
+            if rng.random() < 0.5:
+                shared = models.gen_net(rng, n_nodes=rng.randint(2, 4), uniq='', max_edges=4, build='python',
+                                        libs=('lin', 'sat', 'leak'))
+            else:
+                # node templates with and without overrides over the same operator objects: whatever a compilation caches
+                # about an operator (e.g. its defaults) must not depend on which node applied it first
+                shared = models.gen_aliased(rng, hier=False, build='python')
         for w in range(K):
             flows.append(self.gen_workflow(rng, w + 1, stratum, shared if (shared and w < 2) else None))
         fault_kinds = []
